@@ -163,6 +163,81 @@ def gen_stage(r, cfg, kind):
 
 
 # ------------------------------------------------------------------------------------------
+# round 8: STAGE-1 constraint dictionaries with NON-DEFAULT values of every entry.
+#
+# "The reloaded reconstruction reports the same ... constraints" and "continuing with the same calls" speak about
+# whatever constraint dictionaries the first call set.  CONS1 lists, per model and per entry of its DEFAULT_CONSTRAINTS,
+# the library default and the non-default values a caller can legitimately pass, in the forms that flip the TRUTHINESS
+# of the default wherever the entry is a switch or a weight: falsy forms (False, 0, 0.0) over a truthy default, truthy
+# forms (True, 1, a positive weight / radius) over a falsy one (False, 0, 0.0, None).  (None is used where the library
+# itself uses it as the "off" value; a weight is never None: the library compares it with 0.)
+CONS1 = {
+    "object": {
+        "positivity": (True, [False, 0, False]),
+        "fix_potential_baseline": (False, [True, 1]),
+        "fix_potential_baseline_factor": (1.0, [0, 0.0, 0.5]),
+        "identical_slices": (False, [True, 1]),
+        "apply_fov_mask": (False, [True]),
+        "tv_weight_z": (0, [0.02]),
+        "tv_weight_xy": (0, [0.01, 0.02]),
+        "surface_zero_weight": (0, [0.01]),
+        "gaussian_sigma": (None, list(SIGMAS)),
+        "butterworth_order": (4, [0, 1, 2, 6]),        # 0 only while no Butterworth filter is active (see gen_cons1)
+        "q_lowpass": (None, list(Q_LOW)),
+        "q_highpass": (None, list(Q_HIGH)),
+    },
+    "probe": {
+        "orthogonalize_probe": (True, [False, 0, False]),
+        "center_probe": (False, [True, 1]),
+        "tv_weight": (0.0, [0.02, 0.01]),
+    },
+    "dataset": {
+        "descan_tv_weight": (0.0, [0.01, 0.02]),
+        "descan_shifts_constant": (False, [True]),
+        "center_scan_positions": (False, [True, 1]),
+        "clip_scan_positions": (True, [False, 0]),
+    },
+}
+CONS1_ENTRIES = [(m, k) for m in ORDER for k in CONS1[m]]
+
+
+def gen_cons1(r, cfg, focus):
+    """-> {"object": {...}, "probe": {...}, "dataset": {...}}: the stage-1 constraint dictionaries of one case.  The
+    entry `focus` = (model, key) is always present (the caller cycles it through CONS1_ENTRIES); every other entry
+    joins with probability 1/2 (entries whose default is truthy: 2/3).  All values are non-default."""
+    out = {m: {} for m in ORDER}
+    for m, k in CONS1_ENTRIES:
+        default, vals = CONS1[m][k]
+        if (m, k) != tuple(focus) and r.random() >= (2 / 3 if default else 1 / 2):
+            continue
+        out[m][k] = r.choice(vals)
+    o = out["object"]
+    if o.get("butterworth_order") == 0 and (o.get("q_lowpass") or o.get("q_highpass")):
+        # order 0 makes the Butterworth filter the constant 1/2: kept as a reported (inactive) entry only
+        if tuple(focus) == ("object", "butterworth_order"):
+            o.pop("q_lowpass", None)
+            o.pop("q_highpass", None)
+        else:
+            o["butterworth_order"] = r.choice([1, 2, 6])
+    if o.get("q_lowpass") and o.get("q_highpass") and o["q_highpass"] >= o["q_lowpass"]:
+        o.pop("q_highpass")
+    d = out["dataset"]
+    if "clip_scan_positions" in d and not d.get("center_scan_positions"):
+        # with clipping off and centring off the library's dataset hard-constraint step assigns the position Parameter to
+        # its own property and reconstruct() raises (KeyError: attribute 'scan_positions_px' already exists) before any
+        # checkpoint is involved - no run to interrupt, outside this property: clipping is switched off together with centring
+        d["center_scan_positions"] = r.choice(CONS1["dataset"]["center_scan_positions"][1])
+    return {m: d for m, d in out.items() if d}
+
+
+def cons1_flips(cons1):
+    """coverage statistics: the entries of stage 1 whose value has the opposite truthiness of the library default"""
+    return ["%s.%s=%s(default %s)" % (m, k, "falsy" if not v else "truthy", "truthy" if CONS1[m][k][0] else "falsy")
+            for m, d in sorted((cons1 or {}).items()) for k, v in sorted(d.items())
+            if k in CONS1.get(m, {}) and bool(v) != bool(CONS1[m][k][0])]
+
+
+# ------------------------------------------------------------------------------------------
 # the operations of the Coq model a change amounts to
 
 
